@@ -114,6 +114,9 @@ type input struct {
 	State string `json:"state"`
 	Net   bool   `json:"net,omitempty"`
 	Kind  string `json:"kind,omitempty"` // "" = history, "f26-stress"
+	// Continue: keep going after a leaked mutex / failed canary (default: the history
+	// ends at the first operation that breaks the property)
+	Continue bool `json:"continue,omitempty"`
 	Ops   []jop  `json:"ops"`
 }
 
@@ -262,7 +265,6 @@ func newWorld(netMode bool) (*world, error) {
 		rosterID: map[int]onet.RosterID{}, rosterAbs: map[onet.RosterID]int{},
 		nodeID: map[int]onet.TreeNodeID{}, nodeAbsM: map[onet.TreeNodeID]int{},
 		protos: map[onet.TokenID]*proto{}, sentinels: map[int]chan struct{}{}, markers: map[int]chan struct{}{}}
-	curWorld.Store(w)
 	if netMode {
 		w.lt = onet.NewTCPTest(suite)
 	} else {
@@ -356,7 +358,17 @@ func newWorld(netMode bool) (*world, error) {
 		}
 		return nil
 	})
+	return w, nil
+}
+
+// activate makes w the world of the running case: the harness protocol's
+// instances and the schedule points report to it
+func (w *world) activate() {
+	curWorld.Store(w)
 	onet.SetVerifHook(func(point string, args ...interface{}) {
+		if len(args) == 0 || args[0] != interface{}(w.ov) {
+			return // a goroutine of an earlier case's server
+		}
 		switch point {
 		case "overlay.treeSet":
 			atomic.AddInt64(&w.treeSet, 1)
@@ -369,11 +381,9 @@ func newWorld(netMode bool) (*world, error) {
 			}
 		}
 	})
-	return w, nil
 }
 
 func (w *world) close() {
-	onet.SetVerifHook(func(string, ...interface{}) {})
 	w.mu.Lock()
 	ps := make([]*proto, 0, len(w.protos))
 	for _, p := range w.protos {
@@ -444,7 +454,7 @@ func (w *world) nodeAbs(id onet.TreeNodeID) int {
 	if n, ok := w.nodeAbsM[id]; ok {
 		return n
 	}
-	return 999999
+	return 4999
 }
 
 func (w *world) tok(t *jtok) *onet.Token {
@@ -477,7 +487,7 @@ func (w *world) tokCoq(t *onet.Token) string {
 			return tokTerm(&jt)
 		}
 	}
-	return "(mkTok 999999 999999 999999 999999 999999 999999)"
+	return "(mkTok 4999 4999 4999 4999 4999 4999)"
 }
 
 func (w *world) tmNode(n jnode) *onet.TreeMarshal {
@@ -571,7 +581,7 @@ func (w *world) recordAt(n int, p *peerRec) {
 	})
 	p.r.RegisterProcessorFunc(onet.ResponseTreeMsgID, func(e *network.Envelope) error {
 		m := e.Msg.(*onet.ResponseTree)
-		tr, ro, root := 999999, 999999, 999999
+		tr, ro, root := 4999, 4999, 4999
 		if m.TreeMarshal != nil {
 			tr = w.treeAbsOf(m.TreeMarshal.TreeID)
 			if len(m.TreeMarshal.Children) > 0 {
@@ -586,7 +596,7 @@ func (w *world) recordAt(n int, p *peerRec) {
 	})
 	p.r.RegisterProcessorFunc(onet.SendTreeMsgID, func(e *network.Envelope) error {
 		m := e.Msg.(*onet.TreeMarshal)
-		root := 999999
+		root := 4999
 		if len(m.Children) > 0 {
 			root = w.nodeAbs(m.Children[0].TreeNodeID)
 		}
@@ -627,7 +637,7 @@ func (w *world) treeAbsOf(id onet.TreeID) int {
 	if n, ok := w.treeAbs[id]; ok {
 		return n
 	}
-	return 999999
+	return 4999
 }
 
 func (w *world) rosterAbsOf(id onet.RosterID) int {
@@ -636,7 +646,7 @@ func (w *world) rosterAbsOf(id onet.RosterID) int {
 	if n, ok := w.rosterAbs[id]; ok {
 		return n
 	}
-	return 999999
+	return 4999
 }
 
 const shortWait = 400 * time.Millisecond
@@ -787,10 +797,10 @@ func (w *world) snapshot(o *obs) {
 // ---- executing one operation ----------------------------------------------------------
 
 func (w *world) track(in *input) {
-	seenT := map[int]bool{1: true, 2: true, 3: true}
-	w.tracked = []int{1, 2, 3}
+	seenT := map[int]bool{0: true, 1: true, 2: true, 3: true}
+	w.tracked = []int{0, 1, 2, 3}
 	addT := func(n int) {
-		if !seenT[n] && n != 0 {
+		if !seenT[n] {
 			seenT[n] = true
 			w.tracked = append(w.tracked, n)
 		}
@@ -807,6 +817,7 @@ func (w *world) track(in *input) {
 		addK(op.Tok)
 		if op.M != nil {
 			addK(op.M.To)
+			addK(op.M.Dest)
 			if op.M.TM != nil {
 				addT(op.M.TM.Tr)
 			}
@@ -1052,7 +1063,7 @@ func causes(ops []jop) []string {
 					}
 				}
 				if m.TM != nil && m.TM.Tr >= 1 && m.TM.Tr <= 3 && sameTM(m.TM, genuineTM(m.TM.Tr)) && m.T == "resptree" &&
-					m.RO != nil && m.RO.ID == 1 && !roNoKey(m.RO) && len(m.RO.L) == 3 {
+					requested[m.TM.Tr] && m.RO != nil && m.RO.ID == 1 && !roNoKey(m.RO) && len(m.RO.L) == 3 {
 					known[m.TM.Tr] = true
 				}
 			}
@@ -1206,13 +1217,40 @@ func workerMain() {
 	}
 }
 
+// worlds for "proc" cases are built ahead of time (starting a server is mostly waiting)
+type worldOrErr struct {
+	w   *world
+	err error
+}
+
+var spare chan worldOrErr
+
+func nextWorld(netMode bool) (*world, error) {
+	if netMode {
+		return newWorld(true)
+	}
+	if spare == nil {
+		spare = make(chan worldOrErr, 1)
+		go func() {
+			for {
+				w, err := newWorld(false)
+				spare <- worldOrErr{w, err}
+			}
+		}()
+	}
+	x := <-spare
+	return x.w, x.err
+}
+
 func runCase(in *input, emit func(workerOut)) {
-	w, err := newWorld(in.Net)
+	w, err := nextWorld(in.Net)
 	if err != nil {
 		emit(workerOut{Fail: err.Error()})
 		return
 	}
-	defer w.close()
+	w.activate()
+	// shut the servers down in the background: the next case has its own network
+	defer func() { go w.close() }()
 	w.track(in)
 	delivered := map[string]bool{}
 	for i, op := range in.Ops {
@@ -1230,6 +1268,9 @@ func runCase(in *input, emit func(workerOut)) {
 		}
 		emit(workerOut{Obs: o})
 		if o.Out == 1 || (in.Net && o.Out == 2) {
+			break
+		}
+		if !in.Continue && (o.Out != 0 || len(o.Locks) > 0 || (op.Canary != "" && !o.Canary)) {
 			break
 		}
 	}
@@ -1269,6 +1310,7 @@ func runStress(in *input, emit func(workerOut)) {
 		emit(workerOut{Fail: err.Error()})
 		return
 	}
+	w.activate()
 	w.track(in)
 	w.ov.RegisterTree(w.trees[1])
 	w.ov.VerifExpectTree(w.treeOf(2))
@@ -1414,7 +1456,11 @@ func run(raw json.RawMessage) lib.Case {
 		}
 		wk = shared
 	}
+	t0 := time.Now()
 	os_, extra, fail, died, trace := runOn(wk, raw)
+	if os.Getenv("VERIF_DEBUG") != "" {
+		fmt.Fprintf(os.Stderr, "%-40s ops=%d obs=%d net=%v %v\n", in.Name, len(in.Ops), len(os_), in.Net, time.Since(t0))
+	}
 	if private {
 		wk.kill()
 	} else if died || fail == "worker timed out" {
@@ -1651,7 +1697,10 @@ func (g *gen) roster() *jro {
 }
 
 func (g *gen) envelope() jop {
-	op := jop{K: "recv", P: g.pick(3, 3, 3, 3, 0)}
+	op := jop{K: "recv", P: 3}
+	if g.rng.Intn(25) == 0 {
+		op.P = 0 // an identity where nothing listens (every send to it costs 25 connection attempts)
+	}
 	if g.net && op.P == 0 {
 		op.P = 3
 	}
